@@ -32,7 +32,21 @@ def TSpec.allKeys (t : TSpec) : List String :=
     | .periodic _ _ _ _ _ _ _ ctorArgs _ => ctorArgs.filterMap fun a => match a.2 with | .key k => some k | _ => none
     | _ => []
 
-/-- the translator of a kind reads only keys that the constructor of that kind writes -/
+/-- every value key that occurs in a translator body (the expression trees and the four keys of a
+periodic template) -/
+def TBody.keys : TBody → List String
+  | .plain e => e.keys
+  | .gated e ws _ off => e.keys ++ ws.keys ++ off.keys
+  | .periodic a b c d _ off _ _ _ => [a, b, c, d] ++ off.keys
+
+/-- the `reads` annotation the translator emits is complete: every key the generated body
+evaluates is listed in it (so `C07_reads_written`, which is stated over the annotation and the
+`HArg.key` arguments, really is about the keys the body reads) -/
+theorem C07_body_keys_in_reads :
+    ∀ t ∈ Gen.transSpecs, t.body.keys.all (fun k => t.reads.contains k) = true := by decide
+
+/-- the translator of a kind reads only keys that the constructor of that kind writes
+(over `TSpec.allKeys`; complete by `C07_body_keys_in_reads`) -/
 def readsWritten (T : Tables) (s : CtorSpec) : Bool :=
   match T.transformers.lookup s.kind with
   | none => true
@@ -728,8 +742,9 @@ def periodicKinds : List String := ["periodic_voltage_source", "periodic_current
 def Component.dcOK (c : Component) : Prop :=
   (c.kind = "dc_voltage_source" ∨ c.kind = "dc_current_source") → c.value.lookup "w" = some (.num 0)
 
-/-- admissible analysis of a periodic source (what its constructor and a sensible resolution
-guarantee): known wavetype, non-negative internal R / G, `w ≥ 0`, `0 ≤ w_res < w0/2` -/
+/-- admissible analysis of a periodic source — a **restriction** of "every frequency and
+resolution" that `C07_harmonic` / `C07_faithful` need (see the docstring of `C07_faithful`): what
+the constructor and a resolution that separates the harmonics guarantee: known wavetype, non-negative internal R / G, `w ≥ 0`, `0 ≤ w_res < w0/2` -/
 def Component.periodicOK (c : Component) (w wres : Rat) : Prop :=
   c.kind ∈ periodicKinds →
     0 ≤ w ∧ 0 ≤ wres ∧ (∀ w0, Spec.num? c "w" = some w0 → 2 * wres < w0) ∧
@@ -752,7 +767,8 @@ theorem erase_ite (p : Prop) [Decidable p] (x y : Branch String GQ) :
 
 /-- **C07 (faithful, kinds without waveform).**  For every kind in `exactKinds`: whenever the
 specification defines the intended branch of a component, the generated translator produces
-exactly it (same terminals, identifier and record), at every frequency and resolution. -/
+exactly it (same terminals, identifier and record), at every frequency and every resolution
+(no sign or size condition on `w`, `w_res` for these kinds). -/
 theorem C07_faithful_nonperiodic (trig : Trig) (harm : Harm) (h0 : TrigZero trig) (c : Component) (w wres : Rat)
     (sb : Branch String GQ) (hk : c.kind ∈ exactKinds) (hdc : c.dcOK)
     (hs : Spec.branchOf trig harm c w wres = some sb) :
@@ -1003,7 +1019,23 @@ theorem branchOf_kind {trig : Trig} {harm : Harm} {c : Component} {w wres : Rat}
   obtain ⟨⟨k1, k2, k3, k4, k5, k6, k7, k8, k9, k10, k11, k12, k13, k14, k15⟩, k16, k17⟩ := hk
   simp [Spec.elemOf, k1, k2, k3, k4, k5, k6, k7, k8, k9, k10, k11, k12, k13, k14, k15, k16, k17] at he
 
-/-- **C07 (faithful).**  Every component kind, every value, every frequency and resolution. -/
+/-- the specification covers every kind the component module can construct: the hypothesis
+`Spec.branchOf … = some sb` of the faithfulness theorems cannot fail for want of a Spec entry of
+the *kind* (it can for want of the values the kind needs, e.g. a hand-built component without
+its keys) -/
+theorem C07_spec_covers_kinds :
+    ∀ s ∈ ctorSpecs, s.kind ≠ "ground" → s.kind ∈ exactKinds ++ periodicKinds := by decide
+
+/-- **C07 (faithful).**  Every component kind and every value the Spec gives a branch for
+(`C07_spec_covers_kinds`); for the non-periodic kinds every frequency and resolution; for the
+two periodic kinds under `periodicOK`: analysis frequency `w ≥ 0` and resolution
+`0 ≤ w_res < w0/2`.  Outside that domain model and Spec differ, and neither is "wrong": for
+`w < 0` the code raises `ValueError` (the inner `ac_*_source(w=w)` constructor) while the Spec
+names the mirrored harmonic — the property quantifies over `w ≥ 0` only; for `w_res ≥ w0/2`
+two harmonics lie within the resolution, the code takes the nearest (`np.round`), the Spec's
+`harmonicIndex?` the lower one — the Spec's tie-break is arbitrary there (e.g. `w0 = 2`,
+`w_res = 3/2`, `w = 31/10`: model harmonic 2, Spec harmonic 1); a resolution that does not
+separate the harmonics is outside the property's premise. -/
 theorem C07_faithful : C07_faithful_statement := by
   intro trig harm c w wres sb h0 hdc hper hs
   rcases branchOf_kind hs with hk | hk
